@@ -144,3 +144,48 @@ def c16_special(ctx):
     out["coverage"]["transcript_divergences"] = diffs
     out["coverage"]["c16_s"] = round(time.time() - t0, 1)
     return out
+
+
+# ---------------------------------------------------------------------------------------------
+# shared: run a property's own stream through a harness built WITHOUT num-bigint's `std` feature
+
+def nostd_special(ctx):
+    """feature-conditional code (`cfg(not(feature = "std"))` blocks) must give byte-identical answers:
+    build the harness with --no-default-features (features rand+serde kept so the same streams exist)
+    and compare its answers on this property's requests with the std build's"""
+    out = {"coverage": {}, "violations": [], "errors": [], "notes": []}
+    std_bin = ctx["bins"].get("release")
+    lines = ctx.get("lines") or []
+    if not std_bin or not lines:
+        return out
+    verif = ctx["verif"]
+    tdir = os.path.join(verif, "build", "cargo-cfg-rand_serde")
+    rc, log = ctx["sh"](["cargo", "build", "--offline", "--release", "--no-default-features", "--features", "rand serde"],
+                        cwd=os.path.join(verif, "harness"), timeout=1800, env={"CARGO_TARGET_DIR": tdir})
+    if rc != 0:
+        out["notes"].append("no_std harness build failed (C16's subject); config run skipped: " + log[-200:])
+        out["coverage"]["nostd_build"] = False
+        return out
+    nostd_bin = os.path.join(tdir, "release", "nbharness")
+    a = [r.split(" # ")[0] if r else r for r in ctx["run_harness"](std_bin, lines)]
+    b = [r.split(" # ")[0] if r else r for r in ctx["run_harness"](nostd_bin, lines)]
+    diffs = [(l, x, y) for l, x, y in zip(lines, a, b) if x != y and "unsupported" not in (x, y)]
+    out["coverage"]["nostd_requests"] = len(lines)
+    out["coverage"]["nostd_divergences"] = len(diffs)
+    for (l, x, y) in sorted(diffs, key=lambda d: len(d[0]))[:3]:
+        path = ctx["write_replay"](ctx["pid"], {"property": ctx["pid"], "kind": "config-dependence", "request": l,
+                                                "impl_std": x, "impl_nostd": y,
+                                                "explanation": "the same request gives different answers with and without num-bigint's `std` feature"})
+        out["violations"].append((path, ""))
+    return out
+
+def compose(*steps):
+    def run(ctx):
+        tot = {"coverage": {}, "violations": [], "errors": [], "notes": [], "known_hits": []}
+        for s in steps:
+            r = s(ctx)
+            tot["coverage"].update(r.get("coverage", {}))
+            for k in ("violations", "errors", "notes", "known_hits"):
+                tot[k] += r.get(k, [])
+        return tot
+    return run
